@@ -2,7 +2,12 @@
 
 from typing import Any, Callable, Mapping, Optional, Sequence, Type, Union, cast
 
-from .exc import ExecutionError, GraphQLSyntaxError, VariablesCoercionError
+from .exc import (
+    CoercionError,
+    ExecutionError,
+    GraphQLSyntaxError,
+    VariablesCoercionError,
+)
 from .execution import (
     BlockingExecutor,
     Executor,
@@ -145,7 +150,7 @@ def process_graphql_query(
         )
     except VariablesCoercionError as err:
         return _abort(data=None, errors=err.errors)
-    except ExecutionError as err:
+    except (ExecutionError, CoercionError) as err:
         return _abort(data=None, errors=[err])
 
 
